@@ -526,4 +526,5 @@ def cases(tier, seed):
         out.append(Case("H07.d", f"{i:06d}", M, "h_ill_formed", {"seqs": seqs[i : i + 400]}, validate=0, weight=3.0))
     out.append(Case("H07.e", "no-execution", M, "h_no_execution", {}, kind="conc"))
     out.append(Case("H07.c", "preprocessors", M, "h_preprocessors", {}, validate=1))
+    out.append(Case("H07.obs", "observed", "pvlib.harness.observed", "h_c07", {}, kind="conc"))
     return out
